@@ -23,6 +23,7 @@ pub mod scen_batch;
 pub mod scen_codec;
 pub mod scen_core;
 pub mod scen_ctors;
+pub mod scen_transcript;
 
 use util::Out;
 
@@ -49,6 +50,7 @@ fn main() {
         "C15" => scen_codec::c15(&opts, &mut out),
         "C17" => scen_ctors::c17(&opts, &mut out),
         "C06" => scen_ctors::c06(&opts, &mut out),
+        "C04" => scen_transcript::c04(&opts, &mut out),
         other => {
             eprintln!("unknown scenario {}", other);
             std::process::exit(2);
